@@ -189,9 +189,15 @@ def gen_watch_project(r, safe: bool = False):
     from simdirector import A, Project, plan_file
 
     files = {"src/a.txt": "a v0\n", "src/b.txt": "b v0\n", "mods/one/x.txt": "one\n", "rec/top.md": "top\n",
-             "rec/sub/deep.md": "deep\n", "data/x.dat": "x v0\n", "data/y.dat": "y v0\n", "g/x0.in": "g0\n"}
+             "rec/sub/deep.md": "deep\n", "data/x.dat": "x v0\n", "data/y.dat": "y v0\n", "g/x0.in": "g0\n",
+             "data/sub/p.dat": "p v0\n", "data/sub/q.dat": "q v0\n"}
     plan = [A.static("src/a.txt", "src/b.txt", "data/")]
     feats = []
+    if r.random() < 0.7:
+        # matches inside the static tree: justified by the tree, no node of their own (no step reads them)
+        feats.append("tree-glob")
+        plan.append(A.foreach("data/sub/${*n}.dat", [A.step("note ${n}", inp=[], out=["out/note_${n}.txt"])],
+                              static=False))
     if r.random() < 0.7:
         feats.append("dir-glob")
         plan.append(A.foreach("mods/${*n}/", [A.step("pack ${n}", inp=[], out=["out/pack_${n}.txt"])]))
@@ -222,7 +228,8 @@ def gen_watch_project(r, safe: bool = False):
     return Project(scripts=scripts, files=files, env={}), feats
 
 
-def gen_edit(r, files, dirs, root, in_build: bool, safe: bool = False, initial=None):
+def gen_edit(r, files, dirs, root, in_build: bool, safe: bool = False, initial=None, only_kind=None,
+             only_dir=None):
     """One edit (a short list of primitive edits) valid on the tree `files`/`dirs`."""
     gone = sorted(p for p in (initial or {}) if p not in files and p != "plan.py")
     srcs = sorted(p for p in files if not p.startswith("out/") and p not in ("plan.py", "sub_plan.py"))
@@ -235,8 +242,10 @@ def gen_edit(r, files, dirs, root, in_build: bool, safe: bool = False, initial=N
         return files[p].decode("utf-8", "replace")
 
     n = r.randint(0, 10**6)
+
     if in_build:
-        kinds = ["change", "delete", "del_recreate_same", "del_recreate_diff", "change_restore", "touch"]
+        kinds = ["change", "delete", "del_recreate_same", "del_recreate_diff", "change_restore", "touch",
+                 "move_static_subdir", "move_static_subdir"]
     else:
         kinds = ["change", "change", "delete", "del_recreate_same", "del_recreate_diff", "change_restore", "touch",
                  "add_glob", "add_tree_file", "rmtree", "rmtree_recreate", "mkdir_plain", "mkdir_matching",
@@ -245,12 +254,19 @@ def gen_edit(r, files, dirs, root, in_build: bool, safe: bool = False, initial=N
     if safe:
         # stay away from the four known classes (new / removed / vanished matched directories, a created
         # file that is an undeclared input and a glob match) so that other differences are not masked
-        kinds = [k for k in kinds if k not in ("mkdir_matching", "new_dir_with_file", "move_dir", "move_dir_back",
-                                               "create_missing")]
+        kinds = [k for k in kinds if k not in ("mkdir_matching", "new_dir_with_file", "move_dir", "create_missing")]
         topdirs = [d for d in topdirs if d != "mods"]
         subdirs = [d for d in subdirs if not d.startswith("mods")]
+    if only_kind is not None:
+        kinds = [only_kind]
     kind = r.choice(kinds)
     pool = statics if in_build else srcs
+    if kind == "move_static_subdir":
+        cands = [d for d in subdirs if d.split("/")[0] in ("data", "rec") and (only_dir is None or d == only_dir)]
+        if cands:
+            d = r.choice(cands)
+            return kind, [("move", d, d.replace("/", "_") + f"_away{n}")]
+        return "none", []
     if kind == "change" and pool:
         p = r.choice(pool)
         return kind, [("write", p, text(p) + f"+{n}\n")]
@@ -289,8 +305,8 @@ def gen_edit(r, files, dirs, root, in_build: bool, safe: bool = False, initial=N
     if kind == "new_dir_with_file":
         return kind, [("write", r.choice([f"rec/nd{r.randint(0, 2)}/page.md", f"mods/w{r.randint(0, 2)}/x.txt",
                                           "g/sub/y.in"]), f"fresh {n}\n")]
-    if kind == "move_dir_back" and topdirs:
-        d = r.choice(topdirs)
+    if kind == "move_dir_back" and (topdirs or subdirs):
+        d = only_dir if only_dir in topdirs + subdirs else r.choice(topdirs + subdirs)
         if not os.path.exists(os.path.join(root, d + "_tmp")):
             return kind, [("move", d, d + "_tmp"), ("move", d + "_tmp", d)]
     if kind == "move_dir" and (topdirs or subdirs):
@@ -432,6 +448,9 @@ def run_pair(ctx, project, kw, rounds_fn, seed, where, applied_log=None):
         rR = simR.build(schedule=sched(), external=list(ext0), **kw)
         if ext0:
             history.append({"round": 0, "external": [(k, plain(e)) for k, e in ext0]})
+            ctx.stats.count("first-phases-with-edits-during-build")
+            for _, e in ext0:
+                ctx.stats.count("edit-during-build-" + ("move-subdir" if e and e[0][0] == "move" else "file"))
         aspects, detail = diff_results(rW, rR)
         if aspects or rW.status != "done":
             # the first phases are the same code path (the watcher only listens): a difference here is
@@ -532,6 +551,10 @@ def sim_pairs(ctx, ncase: int, salt: str, only: int | None = None, applied_log=N
         r = ctx.rng(salt, i)
         family = r.choice(["projgen", "watchy", "watchy"])
         safe = r.random() < 0.5
+        directed = None
+        if family == "watchy" and r.random() < 0.4:
+            directed = r.choice(["move-back-then-edit", "subdir-moved-during-build"])
+            safe = True  # keep the known classes out of the way of the scenario
         if family == "projgen":
             model = projgen.gen_model(r, fail_prob=r.choice([0.0, 0.0, 0.2]))
             project = projgen.render(model)
@@ -555,9 +578,29 @@ def sim_pairs(ctx, ncase: int, salt: str, only: int | None = None, applied_log=N
             where["features"] = feats
 
         initial = dict(project.files)
+        # Directed scenarios (watchy family): (A) a watched directory is moved away and back within one
+        # watch phase (both renames before any event is handled), and a file inside it is edited in a
+        # LATER watch phase; (B) a sub-directory of a static directory (nodeless glob matches inside a
+        # static tree, or declared files) is moved away while the first build phase is running.
+        if directed is not None:
+            feats = feats + [directed]
+            where["features"] = feats
+            nrounds = max(nrounds, 2)
+        anchors = {"src": "src/a.txt", "g": "g/x0.in"}
+        if "recursive-glob" in feats:
+            anchors.update({"rec": "rec/top.md", "rec/sub": "rec/sub/deep.md"})
+        if "tree-amend" in feats:
+            anchors["data"] = "data/x.dat"
+        state = {"moved_back": []}
 
-        def rounds_fn(n, simR, r=r, nrounds=nrounds, ext_case=ext_case, safe=safe, initial=initial):
+        def rounds_fn(n, simR, r=r, nrounds=nrounds, ext_case=ext_case, safe=safe, initial=initial,
+                      directed=directed, anchors=anchors, state=state):
             if n == 0:
+                if directed == "subdir-moved-during-build":
+                    files, dirs = simR.files(), simR.dirs()
+                    only = "data/sub" if "tree-glob" in where["features"] and r.random() < 0.7 else None
+                    _, e = gen_edit(r, files, dirs, simR.root, True, only_kind="move_static_subdir", only_dir=only)
+                    return ("first", [], [(r.randint(6, 16), e)] if e else [])
                 if ext_case:
                     files, dirs = simR.files(), simR.dirs()
                     _, e = gen_edit(r, files, dirs, simR.root, True)
@@ -568,6 +611,24 @@ def sim_pairs(ctx, ncase: int, salt: str, only: int | None = None, applied_log=N
             labels, batch = [], []
             # edits are generated against the tree as it evolves: apply to a scratch view
             files, dirs = dict(simR.files()), list(simR.dirs())
+            if directed == "move-back-then-edit" and n == 1:
+                d = r.choice(sorted(a for a in anchors if a in dirs))
+                state["moved_back"].append(d)
+                return (["move_dir_back"], [("move", d, d + "_tmp"), ("move", d + "_tmp", d)], [])
+            if state["moved_back"] and r.random() < 0.75:
+                # a later watch phase: a file inside a directory that was moved away and back
+                d = r.choice(state["moved_back"])
+                inside = sorted(p for p in files if p.startswith(d + "/"))
+                target = anchors.get(d) if anchors.get(d) in files else (r.choice(inside) if inside else None)
+                if target is not None:
+                    k = r.random()
+                    if k < 0.7:
+                        batch.append(("write", target, files[target].decode("utf-8", "replace") + f"later {n}\n"))
+                        files[target] = b"changed"
+                    else:
+                        batch.append(("remove", target))
+                        files.pop(target)
+                    labels.append("edit_in_moved_back_dir")
             for _ in range(r.randint(1, 3)):
                 lab, e = gen_edit(r, files, dirs, simR.root, False, safe, initial)
                 if not e:
@@ -605,6 +666,8 @@ def sim_pairs(ctx, ncase: int, salt: str, only: int | None = None, applied_log=N
                         ok = ok and ed[1] in files
                 if not ok:
                     break
+                if lab == "move_dir_back":
+                    state["moved_back"].append(e[0][1])
                 labels.append(lab)
                 batch.extend(e)
             # Edits during a build phase are only made in the first phase, which is the same code path in both
@@ -612,7 +675,7 @@ def sim_pairs(ctx, ncase: int, salt: str, only: int | None = None, applied_log=N
             # decisions, so "before the k-th decision" would be two different moments.
             external = []
             if not batch and not external:
-                return ("none", [], [])
+                return (["none"], [], [])
             return (labels or ["none"], batch, external)
 
         try:
@@ -822,8 +885,8 @@ class _QuietFindings:
 
 async def correspond(ctx):
     await kcorr.run(ctx, SCOPES, quick=(25, 60), thorough=(500, 80), salt="c14-kcorr")
-    await fold_correspondence(ctx, ctx.budget(60, 1500), 48, "c14-fold")
-    await asyncio.to_thread(applied_correspondence, ctx, ctx.budget(40, 600), "c14-applied")
+    await fold_correspondence(ctx, ctx.budget(50, 1500), 48, "c14-fold")
+    await asyncio.to_thread(applied_correspondence, ctx, ctx.budget(32, 600), "c14-applied")
     ctx.stats.rule = ("a case is one item given to Watcher.record_change (key: kind of change, during_build, the two sets "
                       "afterwards, number of relevant files / recorded matches / accepted paths of the workflow; "
                       "non-trivial: the sets are not both empty), one watch or restart round of a simulated session "
@@ -831,7 +894,7 @@ async def correspond(ctx):
 
 
 async def search(ctx):
-    await asyncio.to_thread(sim_pairs, ctx, ctx.budget(110, 2500), "c14-oracle")
+    await asyncio.to_thread(sim_pairs, ctx, ctx.budget(96, 2500), "c14-oracle")
 
 
 async def replay(ctx, detail):
